@@ -38,7 +38,7 @@ B_OPTIM = 1 << 24
 
 def bounds(tier):
     if tier == "quick":
-        return {"ns_optim_max": B_OPTIM, "n_max": 10 ** 7, "conv_len_max": 300, "conv_value_pairs": [(3, 2), (5, 4), (6, 3), (4, 4), (7, 2)]}
+        return {"ns_optim_max": B_OPTIM, "n_max": 10 ** 7, "conv_len_max": 300, "conv_value_pairs": [(3, 2), (5, 4), (6, 3), (4, 4), (7, 2), (4, 1), (1, 3), (2, 5)]}
     return {"ns_optim_max": B_OPTIM, "n_max": 10 ** 7, "conv_len_max": 5000,
             "conv_value_pairs": [(a, b) for a in range(1, 13) for b in range(1, 7)] + [(20, 7), (13, 12), (25, 2), (40, 3), (24, 24)]}
 
@@ -417,7 +417,7 @@ def case_filters(ctx, b0n, b1n):
     ctx.oblige("bp_first_factor_is_hp", all_([core.eq(bp_hp[i], hp[i]) for i in range(2)]))
 
 
-def case_bandpass(ctx, ns, corners, two_d):
+def case_bandpass(ctx, ns, corners, two_d, container="list"):
     """the multiplier the real band-pass applies to each frequency bin (read through a flat-spectrum FFT probe) is the
     product of the high-pass response at corners[0:2] and the low-pass response at corners[2:4], mirrored over the
     negative frequencies; sampling interval symbolic, corners concrete (including overlapping transition bands)"""
@@ -427,7 +427,8 @@ def case_bandpass(ctx, ns, corners, two_d):
     PROBE_SPECTRUM = True
     try:
         ts = np.zeros((ns, 2)) if two_d else np.zeros(ns)
-        got = ctx.call("bp", f.bp, ts, si, list(corners), axis=0 if two_d else None)
+        b_arg = {"list": list(corners), "tuple": tuple(corners), "array": np.array(corners, dtype=float)}[container]     # the corners may come in any of these
+        got = ctx.call("bp", f.bp, ts, si, b_arg, axis=0 if two_d else None)
     finally:
         PROBE_SPECTRUM = False
     if not ctx.oblige("bp_keeps_the_shape", tuple(got.shape) == tuple(ts.shape), detail={"shape": str(got.shape)}):
@@ -449,6 +450,8 @@ def cases(tier):
     for name, corners in (("overlap", (1, 4, 2, 6)), ("separate", (1, 2, 3, 4))) if tier == "quick" else (("overlap", (1, 4, 2, 6)), ("separate", (1, 2, 3, 4)), ("touching", (1, 3, 3, 5)), ("nested", (1, 8, 2, 4))):
         for ns, two_d in ((6, False), (5, True)) if tier == "quick" else ((6, False), (5, True), (9, False), (8, True)):
             cs.append(Case(f"bandpass_{name}_ns{ns}{'_2d' if two_d else ''}", "case_bandpass", {"ns": ns, "corners": list(corners), "two_d": two_d}, timeout_s=1500))
+    for cont in ("tuple", "array"):
+        cs.append(Case(f"bandpass_overlap_ns6_corners_as_{cont}", "case_bandpass", {"ns": 6, "corners": [1, 4, 2, 6], "two_d": False, "container": cont}, timeout_s=1500))
     # ns_optim in slices (each slice forks over the table entries it touches)
     edges = [1, 1000, 100000, 2000000, 14155776, B_OPTIM]
     for lo, hi in zip(edges[:-1], edges[1:]):
